@@ -16,6 +16,11 @@ from .c18_nodes import run_nodes, run_udp_nodes, WORKLOADS as NODE_WORKLOADS, UD
 def run_send_histories(params, known):
     from .c13 import run_send_histories as run
     return run(params, known)
+
+
+def run_pop_histories(params, known):
+    from .c13 import run_pop_histories as run
+    return run(params, known)
 PROP = 'C18'
 
 
